@@ -101,7 +101,7 @@ SHAPES = {
     "long-vector-filter": ("(define v (list->vector (range 0 600000))) ;;;UNIT;;; (c17-mark!) (transduce v (filtering (lambda (x) #f)) (into-vector))", {"hof", "long"}),
     "long-sort-comparator": ("(define big (reverse (range 0 300000))) ;;;UNIT;;; (c17-mark!) (length (sort big (lambda (a b) (< a b))))", {"hof", "long"}),
     "long-for-each-range": ("(define big (range 0 3000000)) ;;;UNIT;;; (c17-mark!) (for-each (lambda (x) x) big)", {"hof", "long"}),
-    # the only Steel code of the pipeline is the tail thunk of the stream (LazyStreamIter::next drops its error)
+    # the only Steel code of the pipeline is the tail thunk of the stream (K17d, fixed by /repo 3cbe5bf4: regression shapes)
     "stream-tail-prim-filter": ("(define ones (stream-cons 1 (lambda () ones))) ;;;UNIT;;; (c17-mark!) (transduce ones (filtering even?) (taking 1) (into-list))", {"hof", "streamtail"}),
     "stream-tail-taking-count": ("(define ones (stream-cons 1 (lambda () ones))) ;;;UNIT;;; (c17-mark!) (transduce ones (taking 2000000000) (into-count))", {"hof", "streamtail"}),
     # self tail call of a module-level function
@@ -202,11 +202,6 @@ def classify(ctx, name, tags, jit, kv, known, stats, replay_line):
         kf(ctx, "K17a", "id=K17a class=interrupt_request_overlaps_own_stop_round replay=%s (shape %s, jit=%s: %s requests=%s)"
                           % (known["K17a"]["replay"], name, jit, oc, kv.get("requests")))
         return
-    if oc == "hang" and "streamtail" in tags and "K17d" in known:
-        stats["k17d"] += 1
-        kf(ctx, "K17d", "id=K17d class=error_of_stream_tail_thunk_dropped replay=%s (shape %s, jit=%s: no request of %s got through)"
-           % (known["K17d"]["replay"], name, jit, kv.get("requests")))
-        return
     if oc == "hang" and "modloop" in tags and jit == "true" and "K17b" in known:
         stats["k17b"] += 1
         kf(ctx, "K17b", "id=K17b class=jit_native_self_tail_loop replay=%s (shape %s: no request of %s got through)"
@@ -276,7 +271,7 @@ def model_corpus(ctx, stats):
 def run(ctx):
     _SEEN.clear()
     rnd = random.Random(ctx.seed * 7919 + 17)
-    stats = {"cases": 0, "pass": 0, "viol": 0, "k17a": 0, "k17b": 0, "k17d": 0, "k17c": 0, "k17c_forced": 0, "starved": 0, "lat": [],
+    stats = {"cases": 0, "pass": 0, "viol": 0, "k17a": 0, "k17b": 0, "k17c": 0, "k17c_forced": 0, "starved": 0, "lat": [],
              "not_looping": [], "forced": 0,
              "forced_delivered": 0, "k17a_forced": 0, "forced_unsched": [], "model_cases": 0}
     known = {k["id"]: k for k in ctx.load_known()}
@@ -361,7 +356,7 @@ def run(ctx):
         "delivered_after_one_request": stats["pass"],
         "latency_us_median": lat[len(lat) // 2] if lat else None, "latency_us_max": lat[-1] if lat else None,
         "known_K17a_cases": stats["k17a"], "known_K17a_forced": stats["k17a_forced"], "known_K17b_cases": stats["k17b"],
-        "known_K17c_cases": stats["k17c"], "known_K17c_forced": stats["k17c_forced"], "known_K17d_cases": stats["k17d"],
+        "known_K17c_cases": stats["k17c"], "known_K17c_forced": stats["k17c_forced"],
         "cases_without_verdict_because_the_thread_was_starved": stats["starved"],
         "forced_schedules": stats["forced"], "forced_delivered": stats["forced_delivered"],
         "forced_not_schedulable": stats["forced_unsched"], "forced_results": [(a, b, c) for a, b, c, _ in fres],
